@@ -1514,6 +1514,7 @@ class BuiltinMixin:
 
     def m_datetime_timestamp(self, recv, args, kw, st, node):
         f = z3.Function("dt_timestamp", I, R)                 # the float POSIX timestamp of an instant
+        self.lemma_F3()
         return Val(FLOAT, f(recv.t), ts_of=recv.t)
 
     def x_datetime_datetime_fromtimestamp(self, args, kw, st, node):
@@ -1538,6 +1539,12 @@ class BuiltinMixin:
         M = z3.RealVal(1000000)
         stored = mul(ts(T), M)
         self.axioms.append(z3.ForAll([T], z3.Implies(z3.And(0 <= T, T <= LIMIT_F3_US), back(div(stored, M)) == T),
+                                     patterns=[stored]))
+        # Lemma F5 (same cells, claim 'near'): the stored float is within half a microsecond of the instant - so the encoding is
+        # strictly increasing on whole microseconds (comparing stored floats is comparing instants)
+        self.axioms.append(z3.ForAll([T], z3.Implies(z3.And(0 <= T, T <= LIMIT_F3_US),
+                                                     z3.And(z3.ToReal(T) - stored < z3.RealVal("1/2"), stored - z3.ToReal(T) < z3.RealVal("1/2"),
+                                                            stored >= 0)),       # (a rounded non-negative real is non-negative)
                                      patterns=[stored]))
         self.lemmas_used.add("F3")
 
